@@ -547,6 +547,22 @@ def check(prop, tier, replay=None):
         elif i in accepted and not accepted[i]:
             V.divergence({"p": tr["p"], "stream": stream, "observed": observed(tr), "matched_events": row[2]})
     V.cov["traces_validated_against_impl"] += len(traces)
+    if prop == "C08":
+        # split() part of the statement: a region is yielded before more than the deciding window is pulled from the input,
+        # end of stream is requested from the AudioSource exactly once (judged by TLC on SplitTrace, monitor C08S)
+        from . import split as sp
+        M = sp.mods()
+        ltr = sp.lazy_traces(rng, tier, M, 250 if tier == "quick" else 3000)
+        lrows, lst = sp.judge_split(ltr, wd, tag="lazy")
+        V.cov["states"] += lst
+        for tr, row in zip(ltr, lrows):
+            if row[2] != row[3] or row[6]:
+                V.violation({"c": tr["c"], "windows": [e["v"] for e in tr["ev"] if e["e"] == "W"], "abandoned": tr["abandoned"]},
+                            sp.describe(tr) + f" source events={[e['e'] + str(e.get('got', '')) for e in tr['ev'] if e['e'] in ('SR', 'EOS')][:12]} violates C08 (split laziness)",
+                            {"leg": "T-split", "trace": tr, "row": row})
+        V.cov["traces_validated_against_impl"] += len(ltr)
+        V.count(len(ltr), (canon([t["c"], [e.get("v") for e in t["ev"] if e["e"] == "W"]]) for t in ltr if sp.regs_of(t["ev"])))
+        V.leg("T-split", traces=len(ltr), events=sum(len(t["ev"]) for t in ltr))
     V.count(len(traces), (canon([t["p"], [e.get("v") for e in t["ev"] if e["e"] == "R"], t["mode"]]) for t in traces if tokens_of(t)))
     V.leg("T", traces=len(traces), events=sum(len(t["ev"]) for t in traces), impl_checked=len(online),
           impl_accepted=sum(1 for v in accepted.values() if v), wall_s=round(time.time() - t0, 2))
